@@ -39,6 +39,20 @@ class HuaweiyangDeviceHandler(DefaultDeviceHandler):
         
         return c
 
+    def get_ssh_subsystem_names(self):
+        """
+        Return a list of SSH subsystem names to try: the preferred name from the
+        device_params ("ssh_subsystem_name"), if one was given, first.
+
+        """
+        preferred_ssh_subsystem = self.device_params.get("ssh_subsystem_name")
+        name_list = super(HuaweiyangDeviceHandler, self).get_ssh_subsystem_names()
+        if preferred_ssh_subsystem:
+            return [ preferred_ssh_subsystem ] + \
+                        [ n for n in name_list if n != preferred_ssh_subsystem ]
+        else:
+            return name_list
+
     def get_xml_base_namespace_dict(self):
         return {None: BASE_NS_1_0}
 
